@@ -112,11 +112,43 @@ def rule_r2(facts, col, rule_id="C02.R2"):
                     "the next window (duplicate / wrong sample)", {})
 
 
+UNSTABLE_SORTS = {"sort_unstable", "sort_unstable_by", "sort_unstable_by_key", "select_nth_unstable", "select_nth_unstable_by",
+                  "select_nth_unstable_by_key", "reverse", "swap", "rotate_left", "rotate_right", "dedup", "dedup_by_key", "dedup_by"}
+STABLE_SORTS = {"sort", "sort_by", "sort_by_key", "sort_by_cached_key"}
+
+
+def rule_r3(facts, col):
+    """the read-window body re-orders the tag list only with a stable sort (several tags on one sample keep
+    their commit order)"""
+    for body in facts.bodies:
+        if body.self_adt != c01.BUFFER_ADT or body.name != "read_buf":
+            continue
+        for bb, t in body.calls():
+            f = t["f"]
+            name = f.get("name")
+            if name not in UNSTABLE_SORTS and name not in STABLE_SORTS:
+                continue
+            if not t["args"]:
+                continue
+            aty = (t.get("argtys") or [""])[0]
+            if "stream::Tag" not in aty:
+                continue
+            key = "%s:%s" % (body.q, name)
+            if name in STABLE_SORTS:
+                col.ok("C02.R3", key, body.where(bb), "tags ordered by position with a stable sort")
+            else:
+                col.bad("C02.R3", key, body.where(bb),
+                        "the read window re-orders the tag list with %s, which does not preserve the relative order of "
+                        "equal positions: several tags committed on one sample are no longer reported in commit order" % name, {})
+
+
 def run(ctx):
     facts = ctx.facts("default")
     ctx.anchor("C02", c01.STATE_ADT in facts.adts, "circular_buffer::BufferState")
     rule_r1(facts, ctx)
     rule_r2(facts, ctx)
+    rule_r3(facts, ctx)
+    ctx.floor("C02.R3", 1, "tags.sort_by_key in read_buf")
     ctx.floor("C02.R1", 3, "1 inserting (entry) + 1 removing (remove) call site + read-only read_buf")
     ctx.floor("C02.R2", 1, "tag insertion in the commit body")
     ctx.explain("C02 (structural part): who-may-write on BufferState.tags (BTreeMap mutators only in the body that advances "
